@@ -24,7 +24,7 @@ def vectors(k, maxdim):
 
 
 def bounds(tier):
-    return {1: 6, 2: 4, 3: 3} if tier == 'thorough' else {1: 4, 2: 3, 3: 2}
+    return {1: 6, 2: 4, 3: 3} if tier == 'thorough' else {1: 5, 2: 3, 3: 2}
 
 
 def pts_binary(tier):
@@ -283,7 +283,7 @@ def systems(tier):
 def subchecks():
     return [
         Sub('binary', pts_binary, run_binary, engine='D',
-            bound='every ordered pair of vectors over Z/2^k: k=1 dims 0..4, k=2 dims 0..3, k=3 dims 0..2 (thorough: 0..6, 0..4, 0..3, plus every k=3 dim-4 vector against every vector of dim<=2 in both orders): + - ^ & | //'),
+            bound='every ordered pair of vectors over Z/2^k: k=1 dims 0..5, k=2 dims 0..3, k=3 dims 0..2 (thorough: 0..6, 0..4, 0..3, plus every k=3 dim-4 vector against every vector of dim<=2 in both orders): + - ^ & | //'),
         Sub('unary-index', pts_unary, run_unary, engine='D',
             bound='every vector up to one dimension more than above: neg, a+(-a), shifts 0..k+1, every int index, every in-range slice (step None/1/2), every index list of length<=3; reads and writes'),
         Sub('integers-ring', pts_zring, run_zring, engine='D', bound='k=0: dims 0..2 over a small signed alphabet, all pairs'),
